@@ -381,7 +381,12 @@ class ValidateChecker(Checker):
         self.probe_stats = {}
 
     def after(self, world, rop, result):
-        res = world.c.validate()
+        if world.step % 3 == 2:
+            from .interp import RecordingCallback  # pylint: disable=import-outside-toplevel
+
+            res = world.c.validate(callback=RecordingCallback())  # the verdict must not depend on progress reporting
+        else:
+            res = world.c.validate()
         if not res.is_valid():
             raise world.viol('validate:false-positive', f'validate() on a reachable state reports {res}')
         if self.probes and world.model:
